@@ -245,6 +245,36 @@ pub fn run(args: &Args) -> i32 {
             if *subtree { for_each_history(&alpha, prefix, depth, &mut f) } else { f(prefix) }
         });
     }
+    // (b) id-reuse histories: nodes are also added and dropped, so that an id freed by an EDGE is
+    // taken by a NODE and vice versa (part (a) only re-uses node ids for nodes and edge ids for edges).
+    // Only histories that contain AddNode or DropNode are run here, the others are part of (a).
+    let reuse_histories = AtomicU64::new(0);
+    for n in 1..=3u8 {
+        let depth = env(&format!("VERIF_C14_REUSE_DEPTH{n}"), match n {
+            1 => args.tier.pick(5, 6),
+            2 => args.tier.pick(4, 5),
+            _ => args.tier.pick(4, 5),
+        });
+        let alpha = reuse_alphabet(n, depth.saturating_sub(1) as u8);
+        bounds.push(json!({"family": "id-reuse histories (contain AddNode N or DropNode DN a)", "initial_node_slots": n, "max_node_slots": n + 1, "max_history_length": depth, "alphabet": alpha.iter().map(|o| o.text()).collect::<Vec<_>>()}));
+        let items = work_items_in(&alpha, n, n + 1, depth, 2);
+        engine::par_for(items.len(), args.seed, |_w, i| {
+            let (prefix, subtree) = &items[i];
+            let mut f = |h: &[Op]| {
+                if !h.iter().any(|o| matches!(o, Op::AddNode | Op::DropNode(_))) {
+                    return;
+                }
+                reuse_histories.fetch_add(1, Ordering::Relaxed);
+                let spec = GraphSpec::plain(n, h);
+                if std::env::var("VERIF_C14_TRACE").is_ok() {
+                    eprintln!("history {} {}", n, spec.to_json()["ops"]);
+                }
+                let mut db = agdb::DbMemory::new(MEMORY_DB_NAME).unwrap();
+                explore_history(&report, &counters, &mut db, &spec, "memory", Some(&graphs), Some(&nontrivial));
+            };
+            if *subtree { for_each_history_in(&alpha, n, n + 1, prefix, depth, &mut f) } else { f(prefix) }
+        });
+    }
     // file-backed variant on a sub-space (thorough): same histories, DbFile, results must also satisfy the clauses
     let mut file_histories = 0u64;
     if file_depth > 0 {
@@ -289,12 +319,13 @@ pub fn run(args: &Args) -> i32 {
     report.set("distinct_nontrivial", json!(nontrivial.len()));
     report.set(
         "rule",
-        json!("every valid history (ordered sequence of edge insertions E a-b, removals of the j-th oldest live edge XE j, node renewals XN a) up to the stated length on each number of node slots; for each resulting graph every live node and edge as origin x {bfs,dfs} x {from,to}; one evaluation = one search executed on the real Db (plain search plus one `distance > k` search per level). distinct_nontrivial = distinct graph structures (node slots + live edges in connection order) in which at least 3 elements are reachable from some origin"),
+        json!("every valid history (ordered sequence of edge insertions E a-b, removals of the j-th oldest live edge XE j, node renewals XN a) up to the stated length on each number of node slots, plus every valid id-reuse history (the same operations and AddNode N, DropNode DN a on one more slot) that adds or drops a node; for each resulting graph every live node and edge as origin x {bfs,dfs} x {from,to}; one evaluation = one search executed on the real Db (plain search plus one `distance > k` search per level). distinct_nontrivial = distinct graph structures (node slots + live edges in connection order) in which at least 3 elements are reachable from some origin"),
     );
     report.set("exhaustive", json!(true));
     report.set("bounds", json!(bounds));
     report.set("histories", json!(counters.histories.load(Ordering::SeqCst)));
     report.set("histories_on_file_backend", json!(file_histories));
+    report.set("id_reuse_histories", json!(reuse_histories.load(Ordering::SeqCst)));
     report.set("distinct_graphs_with_ids", json!(graphs.len()));
     report.set("origin_kind_cases", json!(counters.cases.load(Ordering::SeqCst)));
     report.set("violating_cases", json!(report.violation_count()));
